@@ -36,6 +36,16 @@
 #define VERIF_FAMS ( 32 | 128 )
 #endif
 #define VERIF_CTLS ( 1 << ACT_CTL )
+#elif defined( SPACE_POS )
+// -DVERIF_TRACK=... -DVERIF_EOL=... -DVERIF_EOL_KIND=n -DPOS_LAZY=0|1 come from the registry
+#define VERIF_K 3
+#if POS_LAZY
+#define VERIF_GROUPS ( T::G_CORE | T::G_CONV | T::G_ATOM2 | T::G_POS )
+#else
+#define VERIF_GROUPS ( T::G_CORE | T::G_CONV | T::G_ATOM2 | T::G_POS | T::G_BOL )
+#endif
+#define VERIF_FAMS ( 1 | 2 )
+#define VERIF_CTLS 1
 #else
 #error "select a space"
 #endif
@@ -53,6 +63,7 @@ struct Phase
    int dev_bound = 1 << 30;
    bool need_hole = false;
    int max_holes = 99;
+   std::vector< std::array< size_t, 3 > > counters = { { 0, 1, 1 } };  // initial byte, line, column of the input
    bool flat_inner = false;  // rules other than the root may only have HOLE / atom children (depth-2 trees, shared leaves allowed)
 };
 
@@ -79,7 +90,7 @@ struct Space
 {
    const char* result_prop = "C01";
    const char* exc_prop = "C05";
-   bool check_hooks = false, check_actions = true;
+   bool check_hooks = false, check_actions = true, check_positions = false;
    long fuel = 3000;     // rule entries allowed to the implementation per execution
    long ref_fuel = 500;   // backstop for the reference (true divergence is detected structurally)
    long max_exec_per_prog = 2000000;
@@ -264,6 +275,35 @@ struct Space
          p.cfgs = cfg_product( { 7 }, { ACT_CTL }, { 1 }, { 1, 0 } );
 #endif
          phases.push_back( p );
+      }
+#elif defined( SPACE_POS )
+      result_prop = "C06";
+      exc_prop = "C06";
+      check_positions = true;
+      {
+#if POS_LAZY
+#define POS_BOL
+#else
+#define POS_BOL "BOL",
+#endif
+         Phase p;
+         p.name = "positions_closed_n3";
+         p.root = { "SEQ", "SOR", "STAR", "OPT", "AT", "NOT_AT", "UNTIL1", "UNTIL2", "PLUS" };
+         p.inner = { "ANY", "ONE_LF", "ONE_CR", "NOT_ONE_A", "NOT_ONE_LF", "SEVEN", "STRING_CRLF", "EOL", "EOLF", "BYTES2", "EVERYTHING", "UTF8_ANY", "BOF", POS_BOL "EOF_", "SEQ", "SOR", "STAR", "OPT", "AT", "NOT_AT", "UNTIL1", "UNTIL2" };
+         p.N = 3;
+         p.L = thorough ? 4 : 3;
+         p.sigma = std::string( "a\n\r\xC3\xA9" );
+         p.counters = { { 0, 1, 1 }, { 7, 3, 5 } };
+         p.cfgs = cfg_product( { 1 }, { 0 }, { 1 }, thorough ? std::vector< int >{ 1, 0 } : std::vector< int >{ 1 } );
+         p.flat_inner = !thorough;
+         phases.push_back( p );
+         Phase q = p;
+         q.name = "positions_closed_n2";
+         q.N = 2;
+         q.L = thorough ? 6 : 4;
+         q.flat_inner = false;
+         q.cfgs = cfg_product( { 1 }, { 0 }, { 1 }, { 1, 0 } );
+         phases.push_back( q );
       }
 #endif
    }
